@@ -48,6 +48,30 @@ package utils
 //@   ensures [member] result <==> exists k int :: 0 <= k && k < len(*slice) && (*slice)[k] == *value
 //@   loop 1 invariant [none] forall k int :: 0 <= k && k < iter ==> (*slice)[k] != *value
 
+//@ func ContainsInts
+//@   property C05 C06
+//@   nopanic
+//@   ensures [member] result <==> exists k int :: 0 <= k && k < len(*slice) && (*slice)[k] == *value
+//@   loop 1 invariant [none] forall k int :: 0 <= k && k < iter ==> (*slice)[k] != *value
+
+// the tolerance test of the Choquet tie groups: absolute difference, bound included
+//@ func FloatsAreEqual
+//@   property C03 C02
+//@   nopanic
+//@   ensures [absolute_tolerance] result <==> abs(expected - actual) <= epsilon
+
+//@ func IsInBounds
+//@   property C20 C08 C12 C13
+//@   nopanic
+//@   ensures [closed_interval] result <==> lower <= value && value <= upper
+
+// the first occurrence is cut out (the rest keeps its order); nothing changes when it does not occur
+//@ func RemoveSingleStringOccurrence
+//@   property C07 C18
+//@   ensures [absent_unchanged] (forall k int :: 0 <= k && k < len(s) ==> old(s[k]) != r) ==> result == s
+//@   ensures [one_shorter] (exists k int :: 0 <= k && k < len(s) && old(s[k]) == r) ==> len(result) == len(s) - 1
+//@   loop 1 invariant [none_before] forall k int :: 0 <= k && k < iter ==> s[k] != r
+
 // the seeded generator every bias and the bias-firing loop are wired with: a private source per call, values in [0,1)
 //@ func RandomBasedSeedValueGenerator$1
 //@   property C08 C17 C18 C02
